@@ -56,7 +56,7 @@ func vclTokens(src string) []string {
 		switch {
 		case c == ' ' || c == '\n' || c == '\t' || c == '\r':
 			i++
-		case c == '#' || strings.HasPrefix(src[i:], "// @"): // macro/annotation comment line produced by the harness: keep as one token incl. newline
+		case c == '#' || strings.HasPrefix(src[i:], "// @") || strings.HasPrefix(src[i:], "// falco-"): // macro/annotation/directive comment line produced by the harness: keep as one token incl. newline
 			j := strings.IndexByte(src[i:], '\n')
 			if j < 0 {
 				j = len(src) - i
@@ -121,11 +121,19 @@ func decorate(t *rapid.T, toks []string) (string, int, []string) {
 		if i > 0 {
 			prev := toks[i-1]
 			ws := rapid.SampledFrom([]string{" ", " ", "\n", "  ", "\t", "\n\n", "\n    "}).Draw(t, "ws")
-			glued := strings.HasPrefix(prev, "#") || strings.HasPrefix(prev, "// @") // after a macro/annotation line we are already on a fresh line
+			glued := strings.HasPrefix(prev, "#") || strings.HasPrefix(prev, "// @") || strings.HasPrefix(prev, "// falco-") // after a macro/annotation/directive line we are already on a fresh line
 			if glued {
 				ws = ""
+				if strings.HasPrefix(prev, "// falco-ignore-next-line") {
+					// empty lines between the directive and its statement are layout only
+					ws = rapid.SampledFrom([]string{"", "", "\n", "\n\n", "  "}).Draw(t, "ws-after-directive")
+				}
 			}
-			if strings.Contains(tok, "@scope") && !strings.Contains(ws, "\n") {
+			trailingDirective := strings.HasPrefix(tok, "// falco-ignore\n") || strings.HasPrefix(tok, "// falco-ignore ")
+			if trailingDirective {
+				ws = " " // a trailing directive stays on the line of its statement
+			}
+			if (strings.Contains(tok, "@scope") || strings.HasPrefix(tok, "// falco-ignore-next-line")) && !strings.Contains(ws, "\n") {
 				// an annotation stays on a line of its own: on the line of the previous token it
 				// would be that token's trailing comment and annotate nothing
 				ws = "\n"
@@ -133,7 +141,11 @@ func decorate(t *rapid.T, toks []string) (string, int, []string) {
 			b.WriteString(ws)
 			if density > 0 && rapid.IntRange(0, 99).Draw(t, "c") < density {
 				body := fmt.Sprintf("c%d %s", n, rapid.SampledFrom(c09Words).Draw(t, "w"))
-				switch rapid.IntRange(0, 7).Draw(t, "cform") {
+				cform := rapid.IntRange(0, 7).Draw(t, "cform")
+				if trailingDirective && (cform == 0 || cform == 1 || cform == 6 || cform == 7) {
+					cform = 2 // only a one-line block comment keeps the directive on the line
+				}
+				switch cform {
 				case 0:
 					b.WriteString("# " + body + "\n")
 				case 1:
@@ -218,7 +230,16 @@ func genC09(t *rapid.T) any {
 			depth := 0
 			for _, l := range lines {
 				if depth == 0 && l != "" && rapid.IntRange(0, 9).Draw(t, "inject") == 0 {
-					out = append(out, "  "+rapid.SampledFrom(lintInjections).Draw(t, "injection"))
+					inj := rapid.SampledFrom(lintInjections).Draw(t, "injection")
+					switch rapid.IntRange(0, 5).Draw(t, "directive") {
+					case 0:
+						out = append(out, "  // falco-ignore-next-line\n")
+					case 1:
+						if !strings.HasPrefix(inj, "if ") && !strings.HasPrefix(inj, "declare") {
+							inj = strings.TrimSuffix(inj, "\n") + " // falco-ignore\n"
+						}
+					}
+					out = append(out, "  "+inj)
 				}
 				out = append(out, l)
 				depth += strings.Count(l, "{") - strings.Count(l, "}")
